@@ -24,6 +24,8 @@ type Config struct {
 	Msgs   []Msg   `json:"msgs"`
 	// PrivateDB: every instance gets a store of its own so that histories may contain the store-failure event
 	PrivateDB bool `json:"private_db,omitempty"`
+	// KMSPath: the node signs through the Cloud-KMS hand-over (DER -> parseSignature -> appendV)
+	KMSPath bool `json:"kms_path,omitempty"`
 }
 
 // Event is one transition label. Everything is data so that a history is a replayable artefact.
